@@ -76,6 +76,11 @@ impl OpCase {
                 args.push(args[0]);
                 continue;
             }
+            // (Gram form with a square array: the additive term may be that very array as well)
+            if self.same && i == 2 && self.dims[2] == self.dims[0] && self.cell.ends_with("|same3") {
+                args.push(args[0]);
+                continue;
+            }
             args.push(p.leaf(&self.dims[i], &self.vals[i], self.mask[i]));
         }
         p.op(self.kind.clone(), &args);
@@ -209,20 +214,25 @@ pub fn gen_matmul(r: &mut Rng, k: u64) -> OpCase {
             da.extend(&[m, kk]);
             let n = if ta { kk } else { m };
             let with_c = r.chance(1, 3);
+            // one array as all three arguments: needs a square, unbatched one
+            let same3 = with_c && m == kk && lead.is_empty() && r.chance(1, 2);
             let mut dims = vec![da.clone(), da.clone()];
             if with_c {
-                dims.push(vec![n]);
+                dims.push(if same3 { da.clone() } else { vec![n] });
             }
             let v = rand_ints(r, numel(&da), -3, 3);
-            let mut vals = vec![v.clone(), v];
+            let mut vals = vec![v.clone(), v.clone()];
             if with_c {
-                vals.push(rand_ints(r, n, -3, 3));
+                vals.push(if same3 { v } else { rand_ints(r, n, -3, 3) });
             }
             let nops = dims.len();
             let mut mask = mask_of(nops, r.below((1 << nops) - 1));
             mask[0] = true;
             mask[1] = true;
-            return OpCase { same: true, kind: OpKind::Matmul { ta, tb: !ta, c: with_c }, dims, vals, mask, cell: format!("matmul|gram|t{}{}", ta as u8, !ta as u8) };
+            if same3 {
+                mask[2] = true;
+            }
+            return OpCase { same: true, kind: OpKind::Matmul { ta, tb: !ta, c: with_c }, dims, vals, mask, cell: format!("matmul|gram|t{}{}{}", ta as u8, !ta as u8, if same3 { "|same3" } else { "" }) };
         }
         return gen_matmul_rank1(r, k);
     }
